@@ -44,8 +44,11 @@ def op_token(o):
     if o[0] == 'r':
         if o[1] in ('i32', 'bool'):
             return 'r:%s:%d' % (o[1], o[2])
-        if o[1][0] == 'a' and o[1] not in ():
-            return 'r:%s:%d:%d:%s' % (o[1], o[2], o[3], hexs(o[4]))
+        if len(o) == 5:
+            # elements arrive most significant byte first; the driver wants host (little-endian) memory
+            import sys
+            els = [list(reversed(e)) if sys.byteorder == 'little' else list(e) for e in o[4]]
+            return 'r:%s:%d:%d:%s' % (o[1], o[2], o[3], hexs([b for e in els for b in e]))
         return 'r:%s:%s' % (o[1], hexs(o[2]))
     if o[0] == 'bh':
         return 'bh:%d' % o[1]
